@@ -94,8 +94,11 @@ theorem search_terminates (g : List GEdge) (src dst k : Nat) :
 /-! ## 3. offered paths encode, parse back and are consistent with their own metadata -/
 
 /-- **Self-consistency of every offered path, all inputs.**  For every path `p` that `combine` returns:
-* it encodes (`StandardPath::wire_valid`: 1..3 segments, 1..63 hop fields each, size ≤ the SCION header
-  limit) and the encoding parses back (`viewOk`: the length fields fit their 6-bit fields);
+* it encodes (`encodeOk` = the extracted rejection tests of `StandardPath::wire_valid`: 1..3 segments,
+  1..`MAX_SEGMENT_HOPS` hop fields each, at most `TOTAL_HOPS_LIMIT` = `MAX_TOTAL_HOPS + 1` hop fields in
+  total, size ≤ the SCION header limit); `viewOk` (the length fields fit their 6-bit fields) is a
+  consequence of `encodeOk` (`viewOk_of_encodeOk`) and adds nothing — that the *bytes* parse back is
+  checked by the harness on every offered path, not proved;
 * `src_ia` / `dst_ia` are the ASes of the first / last metadata interface;
 * every metadata interface has a non-zero id that is the ingress or egress id of a hop field of the path;
 * the expiry (`metadata.expiration` = `ScionPath::expiration()`) is the earliest expiry of its hop
@@ -106,7 +109,7 @@ theorem outputs_self_consistent {src dst : Nat} {cores nonCores : List Seg} {out
     encodeOk p.segs = true ∧ viewOk p.segs = true ∧
     1 ≤ p.segs.length ∧ p.segs.length ≤ MAX_SEGMENTS ∧
     (∀ s ∈ p.segs, 1 ≤ s.hops.length ∧ s.hops.length ≤ MAX_SEGMENT_HOPS) ∧
-    requiredSize p.segs ≤ PATH_MAX_SIZE ∧
+    requiredSize p.segs ≤ PATH_MAX_SIZE ∧ hopFieldCount p.segs ≤ TOTAL_HOPS_LIMIT ∧
     p.ifs.head?.map (·.1) = some p.src ∧ p.ifs.getLast?.map (·.1) = some p.dst ∧
     (∀ i ∈ p.ifs, i.2 ≠ 0 ∧ ∃ s ∈ p.segs, ∃ hf ∈ s.hops, hf.ingress = i.2 ∨ hf.egress = i.2) ∧
     (∀ s ∈ p.segs, ∀ hf ∈ s.hops, p.expiry ≤ hopExpiry s hf) ∧
@@ -116,7 +119,7 @@ theorem outputs_self_consistent {src dst : Nat} {cores nonCores : List Seg} {out
   have hlen := edgeParts_length _ _ _ _ _ _ hep
   have hsol := candidates_solOk _ _ _ s hs
   have hexp := pathExpiry_spec hex (encodeOk_hops_ne henc)
-  refine ⟨henc, hview, ?_, ?_, ?_, ?_, by simp [hf], by simp [hl], ?_, hexp.1, hexp.2⟩
+  refine ⟨henc, hview, ?_, ?_, ?_, ?_, ?_, by simp [hf], by simp [hl], ?_, hexp.1, hexp.2⟩
   · simp only; rw [hlen]; cases hE : s.edges with
     | nil => exact absurd hE hne
     | cons a as => simp
@@ -130,7 +133,10 @@ theorem outputs_self_consistent {src dst : Nat} {cores nonCores : List Seg} {out
     | cons a as => simp
   · unfold encodeOk at henc
     simp only [Bool.and_eq_true, decide_eq_true_eq] at henc
-    exact henc.1.1.1.1
+    exact henc.1.1.1.1.1.1
+  · unfold encodeOk at henc
+    simp only [Bool.and_eq_true, decide_eq_true_eq] at henc
+    exact henc.1.2
   · exact edgeParts_ifs _ _ _ _ _ _ hep
 
 /-- non-vacuity: the single up-segment `3 → 2 → 1` read from its leaf offers one path with these
